@@ -49,6 +49,7 @@ Lift(rs)  == IF AnyErr(rs) THEN Err
              ELSE IF AnyUnspec(rs) THEN Unspec
              ELSE IF AllOk(rs) THEN Ok(VList(Vals(rs))) ELSE May(VList(Vals(rs)))
 Ints(s)   == VList([k \in 1..Len(s) |-> VInt(s[k])])
+TupleKeys(k) == [j \in 1..k |-> ToString(j - 1)]
 
 SeqMap(Op(_), s) == [k \in 1..Len(s) |-> Op(s[k])]
 RECURSIVE SeqSum(_)
@@ -143,6 +144,7 @@ Arr(is)        == [k |-> "arr", is |-> is]           \* 1-d integer array
 Missing(is)    == [k |-> "missing", is |-> is]       \* entries: integers, or NoBound for None
 Jagged(js)     == [k |-> "jagged", js |-> js]        \* one sub-index (seq of ints) per list
 Field(key)     == [k |-> "field", key |-> key]
+Fields(keys)   == [k |-> "fields", keys |-> keys]
 
 Clamp(x, lo, hi) == IF x < lo THEN lo ELSE IF x > hi THEN hi ELSE x
 \* Python's slice.indices: the selected positions (0-based), in order
@@ -197,6 +199,20 @@ VGet(v, items) ==
                       ELSE Err
            r == proj(v)
        IN IF r.ok = 0 THEN Err ELSE VGet(r.v, t)
+  ELSE IF h.k = "fields" THEN
+       \* a list of field names keeps exactly those fields, in the requested order
+       LET RECURSIVE projs(_)
+           projs(u) == IF IsNone(u) THEN Ok(VNone)
+                       ELSE IF IsList(u) THEN Lift([k \in 1..Len(u.xs) |-> projs(u.xs[k])])
+                       ELSE IF IsRec(u) THEN
+                            (IF \A q \in 1..Len(h.keys) : \E j \in 1..Len(u.ks) : u.ks[j] = h.keys[q]
+                             THEN Ok(VRec(IF u.ks = TupleKeys(Len(u.ks)) /\ u.ks # <<>> THEN TupleKeys(Len(h.keys)) ELSE h.keys,
+                                          [q \in 1..Len(h.keys) |->
+                                                    u.vs[CHOOSE j \in 1..Len(u.ks) : u.ks[j] = h.keys[q]]]))
+                             ELSE Err)
+                       ELSE Err
+           r == projs(v)
+       IN IF r.ok = 0 THEN Err ELSE VGet(r.v, t)
   ELSE IF IsNone(v) THEN Ok(VNone)                 \* options are transparent to positional items
   ELSE IF IsRec(v) THEN                            \* positional items pass through records, field by field
        LET rs == [j \in 1..Len(v.vs) |-> VGet(v.vs[j], items)] IN
@@ -249,13 +265,40 @@ ExpandEllipsis(items, depth) ==
 \* Errors that are decided by the TYPE alone, whatever the data (statement of C01: "decided by
 \* the type for regular dimensions"): too many dimensions, and an integer that is out of range
 \* for a regular dimension.  T is the type of the value the items are applied to.
+\* type of the projection by field names: records are replaced by the selected field(s);
+\* [k |-> "bad"] if some record lacks a key (or there is no record at all)
+NumericKey(key) == key \in {"0", "1", "2", "3"}
+IsTupleT(T) == T.k = "rec" /\ T.tup = 1
+RECURSIVE ProjT(_, _, _)
+ProjT(T, keys, single) ==
+  CASE T.k \in {"var", "reg", "opt"} ->
+         LET X == ProjT(T.x, keys, single) IN IF X.k \in {"bad", "unspec"} THEN X ELSE [T EXCEPT !.x = X]
+    [] T.k = "rec" ->
+         IF \E q \in 1..Len(keys) : NumericKey(keys[q]) # IsTupleT(T) THEN
+              (IF IsTupleT(T) THEN [k |-> "bad"] ELSE [k |-> "unspec"])   \* "0" on a named record: index-like keys, not modelled
+         ELSE IF \A q \in 1..Len(keys) : \E j \in 1..Len(T.ks) : T.ks[j] = keys[q] THEN
+              (IF single THEN T.xs[CHOOSE j \in 1..Len(T.ks) : T.ks[j] = keys[1]]
+               ELSE TRec(IF IsTupleT(T) THEN TupleKeys(Len(keys)) ELSE keys,
+                         [q \in 1..Len(keys) |-> T.xs[CHOOSE j \in 1..Len(T.ks) : T.ks[j] = keys[q]]], T.tup))
+         ELSE [k |-> "bad"]
+    [] T.k = "union" -> [k |-> "unspec"]
+    [] OTHER -> [k |-> "bad"]
+
 InReg(T, i) == T.k # "reg" \/ (i >= -T.n /\ i < T.n)
+RECURSIVE HasKeyClash(_, _)
+HasKeyClash(T, keys) ==
+  CASE T.k \in {"var", "reg", "opt"} -> HasKeyClash(T.x, keys)
+    [] T.k = "rec" -> (~IsTupleT(T) /\ \E q \in 1..Len(keys) : NumericKey(keys[q]))
+                      \/ \E j \in 1..Len(T.xs) : HasKeyClash(T.xs[j], keys)
+    [] T.k = "union" -> TRUE
+    [] OTHER -> FALSE
 RECURSIVE StaticOk(_, _)
 StaticOk(T, items) ==
   IF items = <<>> THEN TRUE
   ELSE LET h == Head(items)  t == Tail(items) IN
   CASE h.k = "newaxis" -> StaticOk(T, t)
-    [] h.k = "field" -> TRUE                       \* field projections are checked by the value walk
+    [] h.k = "field" -> LET P == ProjT(T, <<h.key>>, TRUE) IN P.k = "unspec" \/ (P.k # "bad" /\ StaticOk(P, t))
+    [] h.k = "fields" -> LET P == ProjT(T, h.keys, FALSE) IN P.k = "unspec" \/ (P.k # "bad" /\ StaticOk(P, t))
     [] T.k = "opt" -> StaticOk(T.x, items)
     [] T.k = "union" -> TRUE
     [] T.k = "rec" -> \A j \in 1..Len(T.xs) : StaticOk(T.xs[j], items)
@@ -269,6 +312,12 @@ StaticOk(T, items) ==
                  U.k \in {"var", "reg"} /\ StaticOk(U.x, t)
             [] OTHER -> TRUE)
     [] OTHER -> FALSE                              \* a leaf: too many dimensions in slice
+
+\* index-like keys ("0") on named records and projections through unions are not modelled
+FieldUnspec(T, items) ==
+  \E q \in 1..Len(items) :
+    \/ items[q].k = "field" /\ HasKeyClash(T, <<items[q].key>>)
+    \/ items[q].k = "fields" /\ HasKeyClash(T, items[q].keys)
 
 \* combinations the library documents (or is observed) to refuse: either outcome conforms
 MayRefuse(items) ==
@@ -285,7 +334,8 @@ VGetItem(v, T, items) ==
   ELSE IF nell > 1 THEN Unspec              \* not a well-formed index
   ELSE IF nell = 1 /\ MinDepthE(T) # MaxDepthE(T) THEN Err
   ELSE LET its == ExpandEllipsis(items, MinDepthE(T)) IN
-       IF ~StaticOk(TVar(T), its) THEN Err
+       IF FieldUnspec(TVar(T), its) THEN Unspec
+       ELSE IF ~StaticOk(TVar(T), its) THEN Err
        ELSE LET r == VGet(v, its) IN
             IF r.ok = 1 /\ (MayRefuse(its) \/ MayRefuse(items)) THEN May(r.v) ELSE r
 
@@ -301,8 +351,6 @@ CombIdx(lo, n, k, repl) ==
               LET first == lo + i - 1
                   rest  == CombIdx(IF repl = 1 THEN first ELSE first + 1, n, k - 1, repl)
               IN [j \in 1..Len(rest) |-> <<first>> \o rest[j]]])
-
-TupleKeys(k) == [j \in 1..k |-> ToString(j - 1)]
 
 \* what the operation makes of ONE list (sequence xs of elements)
 ListOp(o, xs) ==
